@@ -227,10 +227,10 @@ func c14One(t *mon.T, d c14Desc, sn string, src io.Reader, cs uint32, n int, ref
 func genC14(g *mon.G) {
 	r := gen.Rand(g.Seed)
 	conts := []string{"v1", "v2", "v2-pad", "v2-indexless"}
-	for i := 0; i < g.Pick(60, 500); i++ {
+	for i := 0; i < g.Pick(160, 1500); i++ {
 		g.Emit(c14Desc{Seed: r.Int63(), Container: conts[i%4], MaxBlocks: g.Pick(6, 10), TrustedCAR: r.Intn(4) == 0})
 	}
-	for i := 0; i < g.Pick(20, 200); i++ {
+	for i := 0; i < g.Pick(60, 600); i++ {
 		g.Emit(c14Desc{Seed: r.Int63(), Container: conts[i%4], MaxBlocks: 25, Random: g.Pick(20, 100)})
 	}
 }
